@@ -167,6 +167,8 @@ AT_PATH = {0: [], 1: ["sub"], 2: ["sub", "deep"], 3: ["other"]}
 def u2_names(sc):
     s = sfx(sc["id"])
     v = sc.get("variant", "distinct")
+    if v == "pkgnamed":
+        return {1: "declone" + s, 2: "decltwo" + s, "m1": "_moda", "m2": "modb"}
     if v in ("samename", "samenameboth"):
         return {1: "samedecl" + s, 2: "samedecl" + s, "m1": "_moda", "m2": "_modb"}
     if v == "suffix":
@@ -226,6 +228,12 @@ def u2_files(sc, root: str) -> dict:
         files[f"{sid}/sub/deep/__init__.py"] = decl(1)
         files[f"{sid}/sub/__init__.py"] = "from . import deep\n\n\n" + decl(2)
         return files
+    if sc.get("variant") == "pkgnamed":      # the package "deep" is called like declaration 1, which it re-exports from a private module; declaration 2 lives in its package file
+        files = {k.replace(f"{sid}/sub/deep/", f"{sid}/sub/{nm[1]}/"): t for k, t in files.items()}
+        del files[f"{sid}/sub/{nm['m2']}.py"]
+        files[f"{sid}/sub/fillb{s}.py"] = "def fillb" + s + "() -> int:\n    ...\n"
+        files[f"{sid}/sub/{nm[1]}/__init__.py"] = f"from ._moda import {nm[1]}\n\n\n" + decl(2)
+        return files
     if sc.get("variant") == "initdecl":      # declaration 1 lives in the package file; the package keeps a module of its own
         files[f"{sid}/sub/deep/{nm['m1']}.py"] = "def fillinit" + s + "() -> int:\n    ...\n"
         files[f"{sid}/sub/deep/__init__.py"] = decl(1)
@@ -264,13 +272,19 @@ def u2_observe(sc, stubs: Stubs, rootname: str, idx: dict | None = None) -> dict
                     shown = {"samedecl": "declone" if tgt == 1 else "decltwo"}.get(shown, shown)
                 if sc.get("variant") == "suffixalias":      # the specification calls the two declarations declone / decltwo
                     shown = {"tail": "declone", "big_tail": "decltwo"}.get(shown, shown)
-                occs[tgt].append({"home": [("other" if seg == "_other" and sc.get("variant") == "privreexp" else seg.replace(mark, "")) for seg in file_home(f, rootname, sid)], "name": shown,
+                if sc.get("variant") == "pkgnamed":
+                    f_home = ["deep" if seg == nm[1] else seg for seg in file_home(f, rootname, sid)]
+                else:
+                    f_home = file_home(f, rootname, sid)
+                occs[tgt].append({"home": [("other" if seg == "_other" and sc.get("variant") == "privreexp" else seg.replace(mark, "")) for seg in f_home], "name": shown,
                                   "members": [m.pyname for m in d.members if not m.pyname.startswith("_")]
                                   + [f"{m.pyname}.{x.pyname}" for m in d.members if m.kind == "class" and not m.pyname.startswith("_") for x in m.members if not x.pyname.startswith("_")],
                                   "privmembers": [m.pyname.replace(mark, "") for m in d.members if m.pyname.startswith("_") and not m.pyname.startswith("__")]})
     jp = {1: "absent", 2: "absent"}
     if idx is not None:
         for t, path in ((1, ["sub", "deep", nm["m1"]]), (2, [*({"privtwin": ["_hid"], "privtwindeep": ["sub", "deep", "_hid"]}.get(sc.get("variant"), ["sub"])), nm["m2"]])):
+            if sc.get("variant") == "pkgnamed":
+                path = ["sub", nm[1], nm["m1"]] if t == 1 else ["sub", nm[1]]
             jid = "/".join([rootname, sid, *path, nm[t]])
             e = idx.get("functions" if sc["kind"] == "function" else "classes", {}).get(jid)
             if e is not None:
